@@ -152,8 +152,8 @@ func init() {
 			return err
 		}
 		defer w.close()
-		// (1) the small space of MC_Staged_Impl: <= 3 stages, d in {0,1,2,5}, e in {0,1,4,7}, every offset
-		ds, es := []int{0, 1, 2, 5}, []int{0, 1, 4, 7}
+		// (1) the small space of MC_Staged_Impl: <= 3 stages, d in {0,1,2,5}, e in {-3,0,1,4,7}, every offset
+		ds, es := []int{0, 1, 2, 5}, []int{-3, 0, 1, 4, 7}
 		var rec func(st [][2]int)
 		rec = func(st [][2]int) {
 			if len(st) > 0 {
@@ -211,6 +211,8 @@ func init() {
 			}
 			ns := 1 + c.rng.Intn(8)
 			st := make([][2]int, ns)
+			// every fourth profile dips below zero (a target is any integer: "20s:-20, 20s:20" keeps the load off for 30 s)
+			below := c.rng.Intn(4) == 0
 			for i := range st {
 				d := 0
 				switch c.rng.Intn(5) {
@@ -222,6 +224,9 @@ func init() {
 					d = 1 + c.rng.Intn(maxD/ns+1)
 				}
 				e := c.rng.Intn(maxT + 1)
+				if below && c.rng.Intn(2) == 0 {
+					e = -e
+				}
 				if c.rng.Intn(6) == 0 && i > 0 {
 					e = st[i-1][1] // flat stage
 				}
